@@ -13,6 +13,7 @@ import (
 	"strings"
 	"sync"
 	"time"
+	"unicode/utf8"
 
 	"github.com/go-kit/log"
 	"github.com/go-kit/log/level"
@@ -1479,6 +1480,14 @@ func (m *KV) NotifyMsg(msg []byte) {
 		return
 	}
 
+	// The key is a protobuf string and is used as a metric label value: a key that is not
+	// valid UTF-8 can only come from a corrupted message, and would make the metrics library panic.
+	if !utf8.ValidString(kvPair.Key) {
+		level.Warn(m.logger).Log("msg", "received an invalid KV Pair (key is not valid UTF-8)")
+		m.numberOfInvalidReceivedMessages.Inc()
+		return
+	}
+
 	codec := m.GetCodec(kvPair.GetCodec())
 	if codec == nil {
 		m.numberOfInvalidReceivedMessages.Inc()
@@ -1754,6 +1763,11 @@ func (m *KV) MergeRemoteState(data []byte, _ bool) {
 		// Same validation as for single messages received via NotifyMsg.
 		if len(kvPair.Key) == 0 {
 			level.Warn(m.logger).Log("msg", "received an invalid KV Pair in remote state (empty key)")
+			m.numberOfInvalidReceivedMessages.Inc()
+			continue
+		}
+		if !utf8.ValidString(kvPair.Key) {
+			level.Warn(m.logger).Log("msg", "received an invalid KV Pair in remote state (key is not valid UTF-8)")
 			m.numberOfInvalidReceivedMessages.Inc()
 			continue
 		}
